@@ -148,7 +148,7 @@ func init() {
 			guard(r, func() { ruleMergeReentrant(r) }) // a merge that decodes into state shared by all blocks stores another row's value
 			guard(r, func() { ruleSwapInPlaceSameSize(r) })
 			guard(r, func() { ruleReplayOrder(r) }) // an operation replayed out of order overwrites the value committed last (KF4)
-			guard(r, func() { ruleMarkerArms(r) }) // offset reuse: an offset is freed under the latch of its own block, next to the sweep of its columns — freed earlier, the sweep wipes the next occupant's committed values
+			guard(r, func() { ruleMarkerArms(r) })  // offset reuse: an offset is freed under the latch of its own block, next to the sweep of its columns — freed earlier, the sweep wipes the next occupant's committed values
 		}})
 	register(&PropSpec{ID: "C02",
 		Explanation: "Atomicity — structural part. (C02.query) path rules over Collection.Query/rollback/commit/reset: error edge ⇒ rollback only, nil edge ⇒ commit only, transaction released, buffers dropped on every exit; (C02.effects) who-may-call over the context graph of the lockset walk: every Apply body and every logger/recorder append is reachable only below Txn.commit (or index back-fill); (C02.isolation) no bit of the shared fill list is set outside commit; (C02.release) failing inserts free their offset and leave no marker, rollback releases the offsets of successful inserts; (C02.readers) no reading API decodes a transaction buffer." + staticNote,
@@ -547,7 +547,7 @@ func init() {
 				ruleFootprint(r, "E.footprint", footSel("(column.rwTTL).", "(column.Row).TTL", "(column.Row).SetTTL"), 4)
 			})
 			guard(r, func() { ruleVacuumVisitsEveryRow(r) })
-			guard(r, func() { ruleRelease(r) }) // a marker queued for a released offset deletes the row that owns it by then, deadline and all
+			guard(r, func() { ruleRelease(r) })   // a marker queued for a released offset deletes the row that owns it by then, deadline and all
 			guard(r, func() { ruleReadChunk(r) }) // "the deadline survives snapshot/restore": the snapshot reads a block under the block's latch, or a TTL change in mid-commit is recorded as applied and lost
 		}})
 	register(&PropSpec{ID: "C18",
